@@ -34,7 +34,7 @@ LEVEL_NOTE = (
 )
 TECHNIQUE = "property-based testing (Hypothesis): round-trip + monotonic-mtime oracle over generated values and write sequences"
 RULE = (
-    "Hypothesis draws (store kind in json/pickle/text/binary/touch, direct or through "
+    "(also: files stamped at the Unix epoch; 2-3 subclasses of the public MountedStore written and read from threads at the same time with a rendezvous in the copy hooks) Hypothesis draws (store kind in json/pickle/text/binary/touch, direct or through "
     "TestMountedFileStore, str or pathlib path, encoding, 1-4 successive values of the store's "
     "domain); after every write: read()==value with exact types at every level, modified time "
     "not None and not decreasing; before the first write: modified time None. Text values carry interesting code points (BOM, line terminators, Ctrl-Z) at their first/last position. The path may be spelled absolute or relative to the working directory (bare name, ./name, sub/name) and may hold foreign content before the first write. Time-zone family: successive writes at instants around DST transitions (file mtime set with os.utime) under 7 process time zones; the reported modified times never decrease as instants. Non-trivial = some "
